@@ -1,10 +1,14 @@
 import Driver.GcGuard
+import Driver.Expr
 /-! Line-protocol driver: one request per line, first token selects the model. -/
 
 def dispatch (line : String) : String :=
   match (line.trimAscii.toString.splitOn " ").filter (· ≠ "") with
   | "gc" :: args => Driver.GcGuard.handle args
   | "gcbfs" :: args => Driver.GcGuard.handleBfs args
+  | "ev" :: args => Driver.Expr.handleEv (Driver.Expr.tokenize (" ".intercalate args))
+  | "fold" :: args => Driver.Expr.handleFold (Driver.Expr.tokenize (" ".intercalate args))
+  | "rules" :: args => Driver.Expr.handleRules (Driver.Expr.tokenize (" ".intercalate args))
   | _ => "bad-op"
 
 partial def loop (h : IO.FS.Stream) (out : IO.FS.Stream) : IO Unit := do
